@@ -85,6 +85,19 @@ def build_queries(ck, fns, tables_json, programs, K, want=("schema", "size"), pe
     return queries, meta, stats
 
 
+VPROGS = ["SELECT vals AS v FROM vals", "SELECT vals.vals AS v, t.a AS a FROM vals JOIN t ON vals.vals = t.k", "SELECT vals.vals AS v, u.x AS x FROM vals LEFT JOIN u ON vals.vals = u.id",
+          "SELECT count(vals) AS n FROM vals", "SELECT vals.vals AS v, t.a AS a FROM vals CROSS JOIN t"]
+
+
+def values_programs(tier):
+    """[(literal list, programs over the Values relation `vals`)]: every list over {1,2,3} of length <= 3, some longer ones"""
+    import itertools
+    lists = [list(l) for n in (1, 2, 3) for l in itertools.product((1, 2, 3), repeat=n)] + [[1, 2, 3, 1], [2, 1, 2, 3], [1, 2, 3, 4], [3, 1, 2, 2], [2, 2, 2, 2]]
+    if tier == "quick":
+        lists = [l for i, l in enumerate(lists) if len(l) != 3 or i % 3 == 0 or l in ([1, 2, 1], [1, 1, 2], [2, 1, 1])]
+    return [(l, VPROGS if li % 4 == 0 else VPROGS[:2] + VPROGS[3:4]) for li, l in enumerate(lists)]
+
+
 def join_key_uniqueness(node):
     """which sides of the ON equalities are columns flagged UNIQUE / PRIMARY KEY in the inputs: none | left | right | both"""
     sides = set()
@@ -128,6 +141,18 @@ def main():
     tables_json = progs.catalogue(K)
     programs = progs.programs(tier, seed())
     queries, meta, stats = build_queries(ck, fns, tables_json, programs, K)
+    # literal Values relations (their list is program text, repeated literals included): schema and size of the Values node
+    # and of what is built on it
+    for li, (l, vp) in enumerate(values_programs(tier)):
+        q2, m2, s2 = build_queries(ck, fns, tables_json + [dict(name="vals", values=l)], vp, K)
+        for q in q2:
+            if q["id"].startswith("W|"):
+                continue
+            nid = "v%d:%s" % (li, q["id"])
+            meta[nid] = dict(m2[q["id"]], values_list=l)
+            queries.append(dict(q, id=nid))
+        for k_ in ("programs", "refused", "panics"):
+            stats[k_] += s2[k_]
 
     # ---- symbolic lemma on Map::size (LIMIT / OFFSET arithmetic), from MIR: for every input bound m >= 0, limit, offset and
     # every input row count n <= m, the number of rows kept min(limit, max(0, n - offset)) is <= the declared upper bound
@@ -216,7 +241,8 @@ def main():
         try:
             con = sqlrun.connect()
             sqlrun.load(con, {p: tj for p, (tj, _) in info["ctx_tables"].items()}, dbm)
-            names, rows = sqlrun.run(con, sql)
+            import c01
+            names, rows = sqlrun.run(con, c01.sqlite_fix(sql))
         except Exception as ex:
             ck.inconclusive("SQLite replay failed for `%s` node %s: %s" % (info["sql"], info["node"], ex))
             continue
